@@ -656,6 +656,10 @@ class Num:
         self._tighten(F, ch)
         if ch:
             self.propagate(ch)
+        # two facts that contradict each other directly (a - b <= 1 and a - b >= 2) do not move any symbol bound:
+        # compare the new fact with the others
+        if len(self.facts) > 1 and self.rng(F, 0, 1)[0] > 0:
+            raise Infeasible()
 
     def note_equality(self, F: Form):
         """F == 0: a symbol with coefficient +-1 is congruent to the rest modulo the gcd of the rest"""
